@@ -17,13 +17,20 @@ REAL_VS_STUB = {
     "not_compiled_on_linux": ["event_kevent.c", "event_windows.c", "mach.c", "voucher/firehose", "kevent workqueue / workloop-kevent paths"],
 }
 
-PROBE_NAMES = {}
+PROBE_NAMES = {
+    0: "DIRTY seen while releasing the drain lock (drain_try_unlock)", 1: "barrier waiter handed the queue lock", 2: "non-barrier waiter redirected or woken",
+    3: "concurrent drain stopped: no width / pending barrier", 4: "last reader took the lock for a pending barrier", 5: "suspend count spilled to the side counter",
+    6: "suspend count pulled back from the side counter", 7: "semaphore time-out undid its decrement", 8: "semaphore time-out lost the race with a signal and drained the wake-up",
+    9: "group wake with waiters", 10: "group wake with notify blocks", 11: "dispatch_once slow wait", 13: "pool monitor poked a queue with no runnable worker",
+    14: "EPOLLHUP / hang-up merged", 15: "deferred source unregistration acknowledged", 16: "dispatch_sync slow path (waiter enqueued)",
+    17: "dequeuer waited for a pre-empted enqueuer", 19: "dispatch_apply serial fallback", 20: "dispatch_apply redirect through custom queues",
+}
 UNUSUAL_NAMES = {0: "barrier-sync fast path refused", 1: "sync width reservation refused", 2: "async acquire refused"}
 
 
 def rule_of(prop):
     try:
-        return subprocess.run([os.path.join(VERIF, 'build', 'plain', 'dsim'), 'rule', prop], capture_output=True, text=True).stdout.strip()
+        return subprocess.run([os.path.join(os.environ.get('VERIF_BUILD', os.path.join(VERIF, 'build')), 'plain', 'dsim'), 'rule', prop], capture_output=True, text=True).stdout.strip()
     except Exception:
         return ''
 
